@@ -1,7 +1,7 @@
 #!/bin/sh
 # runs every claimed check at the given tier (default quick) and prints one summary line per property
 TIER=${1:-quick}
-cd /verif
+cd "$(dirname "$0")/.."
 for p in $(python3 -c "import json;print(' '.join(c['property_id'] for c in json.load(open('MANIFEST.json'))['checks']))"); do
   s=$(date +%s)
   out=$(python3 check.py $p --tier $TIER 2>&1); rc=$?
